@@ -39,3 +39,51 @@ PBT_PROPERTY(pmerge) {
         else run_int_u(src, c);
     }
 }
+
+// Scale classes (a separate target so that the byte -> case mapping of `pmerge` and its stored witnesses stay valid):
+// the same oracle on shapes whose SIZE parameters are far from the small-shape generator above — 41..400 and
+// 1000..3000 sequences, 2..64 threads, the public tuning variable parallel_multiway_merge_oversampling over
+// 1..1200, totals of 20000..60000 elements (per-thread chunks of >= 1000), more threads than elements with
+// hundreds of (mostly empty) sequences, and minimal_k / minimal_n thresholds right at the actual k / length.
+// Every case is (selectors, a few shape parameters, 64-bit seed) expanded by a local PRNG in run_case<>.
+PBT_PROPERTY(pmerge_scale) {
+    using namespace c07;
+    reset_globals();
+    Cfg c;
+    // the size selectors come first: short buffers must still reach the scale classes
+    c.scale = 1 + (int)src.weighted({6, 3, 2, 3}); // many sequences | big chunks | very many very short | sparse
+    switch (src.weighted({2, 3, 3, 5, 4, 4, 1})) {
+    case 0: c.threads = 2; break;
+    case 1: c.threads = (int)src.range(3, 8); break;
+    case 2: c.threads = (int)src.range(9, 16); break;
+    case 3: c.threads = (int)src.range(17, 32); break;
+    case 4: c.threads = (int)src.range(33, 48); break;
+    case 5: c.threads = (int)src.range(49, 64); break;
+    default: c.threads = 1; break;
+    }
+    {
+        // any value >= 1 is a legal oversampling factor (public variable, no documented upper bound)
+        const size_t oc = src.weighted({4, 2, 2, 3, 4, 3, 3, 3});
+        static const int OS[7] = {10, 1, 2, 33, 100, 300, 1000};
+        c.oversampling = oc < 7 ? OS[oc] : (int)src.range(1, 1200);
+    }
+    c.sampling = !src.boolean();                 // zero byte -> MWMSA_SAMPLING (the splitter with a tuning parameter)
+    const size_t ty = src.weighted({3, 2});      // record + counting output / int + raw output
+    const bool stable = !src.boolean();
+    c.entry = (int)src.weighted({5, 2, 3});
+    c.alg = (int)src.range(0, 3);
+    c.gate = (int)src.weighted({12, 3, 1, 4});   // force_parallel | defaults (k >= 2, n >= 1000) | force_sequential | custom
+    c.mink = c.minn = 0;
+    if (c.gate == 3) {
+        c.mink_rel = (int)src.range(0, 3);
+        c.minn_rel = (int)src.range(0, 3);
+    }
+    c.desc = src.boolean();
+    if (ty == 0) {
+        if (stable) run_rec_s(src, c);
+        else run_rec_u(src, c);
+    } else {
+        if (stable) run_int_s(src, c);
+        else run_int_u(src, c);
+    }
+}
